@@ -456,9 +456,11 @@ where
         let mut current = self.get_root();
 
         loop {
-            let left_child = self.get_page(current)?.cell(0).left_child();
-
-            let is_leaf = self.get_page(current)?.is_leaf();
+            // An interior page may hold no key at all (only its right child) after a split of very large cells.
+            let left_child = {
+                let page = self.get_page(current)?;
+                if page.is_leaf() { None } else { page.child(0) }
+            };
             self.accessor_mut()?.release(current);
 
             // If left child is not set it means we have reached up a leaf node.
